@@ -759,9 +759,9 @@ def c07(ck):
         if c["mode"] == "deadline":
             src = c["src"]
             # the outermost try has a plain-value handler, an endless body and no endless finally: the handler's value
-            m = re.match(r"^\(try (\(lp 0\)|\(rcl\)|\(spin\)|\(sleep 100000\)|@\(future \(sleep 100000\)\)) \(catch e :h\)( \(finally :h\))?\)$", src)
+            m = re.match(r"^\(try (\(lp 0\)|\(rcl\)|\(spin\)|\(sleep 100000\)|@\(future \(sleep 100000\)\)) \(catch e \(trace! :hh\) :h\)( \(finally \(trace! :ff\) :h\))?\)$", src)
             if m:
-                c["opt"] = {"expect": "value"}
+                c["opt"] = {"expect": "value", "effects": ":hh" + (" :ff" if m.group(2) else "")}
             elif "try" not in src:
                 c["opt"] = {"expect": "timeout"}
     canc = [c for c in cases if c["mode"] == "cancel"]
